@@ -236,8 +236,6 @@ def oracle_trees(trees, L, oid, d, enc_opmap):
         if np.asarray(m).shape != ref.shape or not np.array_equal(np.asarray(m), ref):
             return f'OpGraph.as_matrix(direction={direction}) differs from the symbolic meaning'
     for (i, t), tr in zip(trees, ts):
-        if not t[1]:
-            continue            # a tree consisting of a single leaf has no operator (as_matrix returns the 1x1 zero)
         h = oglib.tree_height(t)
         sym = oglib.sym_norm([(w + (oid,) * (h - len(w)), k) for w, k in oglib.tree_paths(t)])
         if not np.array_equal(tr.as_matrix(opmap), oglib.dense_of_sym(sym, opmap, d, h)):
@@ -303,9 +301,16 @@ def oracle_chain(ch, d, enc_opmap):
     return None if np.array_equal(m, ref) else 'OpChain.as_matrix differs from coeff * kron of the operators'
 
 
+def trees_in_domain(trees, L):
+    """start sites on the lattice, heights up to the remaining length, charges as the construction requires"""
+    return L >= 1 and all(0 <= i < L and tree_ok(t, L - i) and (i > 0 or t[0] == 0) for i, t in trees)
+
+
 def run_case(case):
     k = case['kind']
     if k == 'trees':
+        if not trees_in_domain(case['trees'], case['length']):
+            return None
         return oracle_trees(case['trees'], case['length'], case['oid_identity'], case['d'], case['opmap'])
     if k == 'aut':
         return oracle_aut(case['aut'], case['d'], case['opmap'])
@@ -324,8 +329,7 @@ def search(tier, seed, hints, budget_s):
     for h in hints:
         if h['kind'] == 'correspondence' and isinstance(h['detail'], dict):
             op = h['detail']['op']
-            if op.get('op') == 'og.from_optrees' and op['length'] >= 1 and all(0 <= i < op['length'] and tree_ok(t, op['length'] - i) for i, t in op['trees']) \
-                    and all(t[0] == 0 for i, t in op['trees'] if i == 0):
+            if op.get('op') == 'og.from_optrees' and trees_in_domain(op['trees'], op['length']):
                 cands.append(mk_case('trees', rng, trees=op['trees'], length=op['length'], oid_identity=0))
             elif op.get('op') == 'og.from_automaton' and op['length'] >= 1:
                 cands.append(mk_case('aut', rng, aut=op))
